@@ -284,6 +284,13 @@ var axGroups = []axGroup{
 	{[]string{"(shl ", "(shr "}, "(declare-fun shl (Int Int) Int)\n(declare-fun shr (Int Int) Int)\n"},
 	{[]string{"(band64 ", "(bor64 ", "(bxor64 ", "(bandnot64 "}, "(declare-fun band64 (Int Int) Int)\n(declare-fun bor64 (Int Int) Int)\n(declare-fun bxor64 (Int Int) Int)\n(declare-fun bandnot64 (Int Int) Int)\n"},
 	{[]string{"(band32 ", "(bor32 ", "(bxor32 ", "(bandnot32 "}, "(declare-fun band32 (Int Int) Int)\n(declare-fun bor32 (Int Int) Int)\n(declare-fun bxor32 (Int Int) Int)\n(declare-fun bandnot32 (Int Int) Int)\n"},
+	// ssum(a, s, e, c) = sum over k in [s, e) of (c + max(a[k], 0)); recursive on the start index.
+	// The third axiom (non-negativity) is a lemma by induction on e-s, assumed here (listed in trusted_base).
+	{[]string{"(ssum "}, `(declare-fun ssum ((Array Int Int) Int Int Int) Int)
+(assert (forall ((a (Array Int Int)) (s Int) (e Int) (c Int)) (! (=> (>= s e) (= (ssum a s e c) 0)) :pattern ((ssum a s e c)))))
+(assert (forall ((a (Array Int Int)) (s Int) (e Int) (c Int)) (! (=> (< s e) (= (ssum a s e c) (+ c (ite (>= (select a s) 0) (select a s) 0) (ssum a (+ s 1) e c)))) :pattern ((ssum a s e c) (select a s)))))
+(assert (forall ((a (Array Int Int)) (s Int) (e Int) (c Int)) (! (=> (>= c 0) (>= (ssum a s e c) 0)) :pattern ((ssum a s e c)))))
+`},
 	{[]string{"(pow2 "}, "(declare-fun pow2 (Int) Bool)\n"},
 }
 
